@@ -8,6 +8,7 @@ EXTENDS Structural
 
 CONSTANTS Ops,        \* set of operation names to enumerate
           Shapes,     \* input shapes
+          WideShapes, \* extra input shapes (longer axes) for the chunk-relative shuffle / take family only
           MaxChunkNd  \* shapes with more axes than this get a menu of chunkings instead of all
 
 VARIABLES case, exp, out
@@ -55,6 +56,33 @@ GroupMenu(n) == {<<[j \in 1..n |-> n - j]>>,                          \* one gro
                 \cup (IF n >= 3 THEN {<<<<2, 0>>, <<1>>, [j \in 1..(n - 2) |-> n - j]>>} ELSE {})
 ShuffleCases(sh) == UNION {[op: {"shuffle"}, shape: {sh}, groups: GroupMenu(sh[d]), ax: {d - 1}]
                            : d \in {d \in DOMAIN sh : sh[d] > 0}}
+(* Chunk-relative indexers.  shuffle (and take, which splits its index into groups and calls the same
+   code) has a shortcut for "the array is already grouped the way we want": the indexer is the identity
+   grouping of the input's own chunks.  The interesting inputs are therefore the indexers that are *nearly*
+   that: for every chunking c of the axis, the identity grouping of c and the groupings obtained from it by
+   exchanging two interior positions of a group, repeating an interior position, or exchanging interior
+   positions of two groups - same group lengths, same first and last position, different content.  Such a
+   case carries achunks = c: the harness runs it on an input whose axis is chunked exactly like c (the
+   reference result does not depend on it).                                                              *)
+IdGroups(c) == [b \in DOMAIN c |-> [t \in 1..c[b] |-> Offset(c, b) + t - 1]]
+SwapIn(g)   == [g EXCEPT ![2] = g[3], ![3] = g[2]]               \* Len(g) >= 4
+DupIn(g)    == IF Len(g) >= 4 THEN [g EXCEPT ![3] = g[2]] ELSE [g EXCEPT ![2] = g[1]]      \* Len(g) >= 3
+NearId(c) ==
+  LET G == IdGroups(c) IN
+  {G}
+  \cup {[G EXCEPT ![b] = SwapIn(G[b])] : b \in {b \in DOMAIN c : c[b] >= 4}}
+  \cup {[G EXCEPT ![b] = DupIn(G[b])] : b \in {b \in DOMAIN c : c[b] >= 3}}
+  \cup {[G EXCEPT ![p[1]] = [G[p[1]] EXCEPT ![2] = G[p[2]][2]], ![p[2]] = [G[p[2]] EXCEPT ![2] = G[p[1]][2]]]
+        : p \in {p \in (DOMAIN c) \X (DOMAIN c) : p[1] < p[2] /\ c[p[1]] >= 3 /\ c[p[2]] >= 3}}
+  \* the identity grouping of a different chunking with as many blocks (lengths differ: no shortcut)
+  \cup (IF Len(c) >= 2 /\ c[1] >= 2 THEN {IdGroups([c EXCEPT ![1] = c[1] - 1, ![2] = c[2] + 1])} ELSE {})
+RelCases(op, sh) ==
+  UNION {UNION {IF op = "shuffle"
+                THEN {[op |-> "shuffle", shape |-> sh, ax |-> d - 1, groups |-> G, achunks |-> c] : G \in NearId(c)}
+                ELSE {[op |-> "take", shape |-> sh, ax |-> d - 1, idx |-> FlattenSeq(G), achunks |-> c] : G \in NearId(c)}
+                : c \in Comps(sh[d])}
+         : d \in {d \in DOMAIN sh : sh[d] >= 1}}
+
 RepeatCases(sh) == UNION {[op: {"repeat"}, shape: {sh}, r: 0..3, ax: {d - 1, d - 1 - Nd(sh)}] : d \in DOMAIN sh}
 TileCases(sh)   == [op: {"tile"}, shape: {sh},
                     reps: {<<0>>, <<1>>, <<2>>, <<3>>, <<2, 1>>, <<1, 2>>, <<2, 2>>, <<0, 2>>}
@@ -112,8 +140,8 @@ OpCases(op, sh) ==
     [] op = "flip"         -> FlipCases(sh)
     [] op = "rot90"        -> Rot90Cases(sh)
     [] op = "roll"         -> RollCases(sh)
-    [] op = "take"         -> TakeCases(sh)
-    [] op = "shuffle"      -> ShuffleCases(sh)
+    [] op = "take"         -> TakeCases(sh) \cup RelCases("take", sh)
+    [] op = "shuffle"      -> ShuffleCases(sh) \cup RelCases("shuffle", sh)
     [] op = "repeat"       -> RepeatCases(sh)
     [] op = "tile"         -> TileCases(sh)
     [] op = "broadcast_to" -> BroadcastCases(sh)
@@ -129,6 +157,7 @@ InputShapes(c) == IF c.op \in {"concatenate", "stack", "block1"} THEN {c.shapes[
                   ELSE IF c.op = "block2" THEN {FlattenSeq(c.rows)[k] : k \in DOMAIN FlattenSeq(c.rows)}
                   ELSE {c.shape}
 AllOpCases == UNION {OpCases(op, sh) : op \in Ops, sh \in Shapes}
+              \cup UNION {RelCases(op, sh) : op \in Ops \cap {"shuffle", "take"}, sh \in WideShapes}
 AllInputShapes == UNION {InputShapes(c) : c \in AllOpCases}
 
 \* chunkings: all of them for few axes, a menu (single block, unit blocks, two irregular) for more
@@ -187,6 +216,16 @@ PadKeepsCore == (IsOp /\ ~exp.err /\ case.op = "pad") =>
                       r == Arr(exp.shape, exp.cells)
                       ix == Idx0(case.shape)
                   IN \A j \in DOMAIN ix : At(r, [d \in DOMAIN case.shape |-> ix[j][d] + case.pw[d][1]]) = At(a, ix[j])
+
+\* a chunk-relative indexer has the block lengths, first and last positions of its chunking, and the
+\* family contains, for every chunking with a block of >= 3, an indexer that is NOT the identity
+RelStructure == (IsOp /\ case.op = "shuffle" /\ "achunks" \in DOMAIN case) =>
+   \/ Len(case.groups) # Len(case.achunks)
+   \/ \E b \in DOMAIN case.groups : Len(case.groups[b]) # case.achunks[b]
+   \/ \A b \in DOMAIN case.groups :
+         /\ case.groups[b][1] = Offset(case.achunks, b)
+         /\ case.groups[b][Len(case.groups[b])] = Offset(case.achunks, b) + case.achunks[b] - 1
+RelNotIdentity == \A c \in Comps(4) : (\E b \in DOMAIN c : c[b] >= 3) => \E G \in NearId(c) : G # IdGroups(c) /\ FlattenSeq(G) # Iota(4)
 
 \* every chunking handed to the harness is a valid chunking of its shape
 ChunkingsValid == case.op = "chunkings" => \A j \in DOMAIN exp.all : ValidChunks(case.shape, exp.all[j])
